@@ -341,6 +341,38 @@ def selection_programs():
     return prog2, prog1, stack, pi_ok
 
 
+def resolve_rule(fname: str):
+    """the ellipsoid resolution of a public wrapper (`trs2llh` / `llh2trs`) as an order of preference, and whether the
+    resolved name is what the kernel call receives.  Understood:
+      `if ellipsoid is None: ellipsoid = X.ellipsoid if hasattr(X, "ellipsoid") else GRS80`   → explicit, carried, default
+      `ellipsoid = getattr(X, "ellipsoid", ellipsoid) or GRS80`                                  → carried, explicit, default
+      `ellipsoid = ellipsoid or getattr(X, "ellipsoid", GRS80)` / `… or GRS80`                   → explicit, carried, default
+    anything else that stores into `ellipsoid` → [] (not understood)"""
+    tree = ast.parse((util.REPO / TRANSFORMATION_PY).read_text())
+    fn = next((n for n in tree.body if isinstance(n, ast.FunctionDef) and n.name == fname), None)
+    if fn is None or len(fn.args.args) != 2 or fn.args.args[1].arg != "ellipsoid":
+        return [], False
+    x = fn.args.args[0].arg
+    default_none = len(fn.args.defaults) == 1 and isinstance(fn.args.defaults[0], ast.Constant) and fn.args.defaults[0].value is None
+    stores = [st for st in fn.body if any(isinstance(n, ast.Name) and n.id == "ellipsoid" and isinstance(n.ctx, ast.Store) for n in ast.walk(st))]
+    order = []
+    if default_none and len(stores) == 1:
+        src = ast.unparse(stores[0])
+        carried = f"{x}.ellipsoid if hasattr({x}, 'ellipsoid') else GRS80"
+        if src == f"if ellipsoid is None:\n    ellipsoid = {carried}":
+            order = [".explicitArg", ".carried", ".default"]
+        elif src == f"ellipsoid = getattr({x}, 'ellipsoid', ellipsoid) or GRS80":
+            order = [".carried", ".explicitArg", ".default"]
+        elif src in (f"ellipsoid = ellipsoid or getattr({x}, 'ellipsoid', GRS80)", f"ellipsoid = ellipsoid or getattr({x}, 'ellipsoid', None) or GRS80"):
+            order = [".explicitArg", ".carried", ".default"]
+    # the kernel call: `return _<fname>(<x>, ellipsoid).copy()` (or without `.copy()`)
+    kernel = False
+    for st in fn.body:
+        if isinstance(st, ast.Return):
+            kernel = ast.unparse(st.value) in (f"_{fname}({x}, ellipsoid).copy()", f"_{fname}({x}, ellipsoid)")
+    return order, kernel
+
+
 def delta_empty_from():
     """`PositionDeltaArray.empty_from` (inherited by PosVelDeltaArray): the `ellipsoid=` of the NaN reference position"""
     tree = ast.parse((util.REPO / POSITION_PY).read_text())
@@ -423,6 +455,11 @@ def render_select() -> str:
         "",
         "/-- `pi` is `np.pi` (broadcast over the rows when `trs.ndim == 2`) -/",
         "def piIsPi : Bool := " + ("true" if pi_ok else "false"),
+        "",
+        "/-- the ellipsoid resolution of the public wrappers, as an order of preference, and: the kernel receives the resolved one -/",
+        "def resolveTrs2llh : List ResSrc := [" + ", ".join(resolve_rule("trs2llh")[0]) + "]",
+        "def resolveLlh2trs : List ResSrc := [" + ", ".join(resolve_rule("llh2trs")[0]) + "]",
+        "def kernelGetsResolved : Bool := " + ("true" if resolve_rule("trs2llh")[1] and resolve_rule("llh2trs")[1] else "false"),
         "",
         "end Midgard.Generated.TrsSelect",
         "",
